@@ -40,6 +40,7 @@ import (
 	"github.com/dadrus/heimdall/internal/rules/mechanisms/values"
 	"github.com/dadrus/heimdall/internal/x"
 	"github.com/dadrus/heimdall/internal/x/errorchain"
+	"github.com/dadrus/heimdall/internal/x/hashx"
 	"github.com/dadrus/heimdall/internal/x/stringx"
 )
 
@@ -374,13 +375,11 @@ func (h *genericContextualizer) calculateCacheKey(
 	// the values of the forwarded headers and cookies are part of the request sent to
 	// the endpoint and may influence the response
 	for _, headerName := range h.fwdHeaders {
-		hash.Write(stringx.ToBytes(headerName))
-		hash.Write(stringx.ToBytes(ctx.Request().Header(headerName)))
+		hashx.WriteStrings(hash, headerName, ctx.Request().Header(headerName))
 	}
 
 	for _, cookieName := range h.fwdCookies {
-		hash.Write(stringx.ToBytes(cookieName))
-		hash.Write(stringx.ToBytes(ctx.Request().Cookie(cookieName)))
+		hashx.WriteStrings(hash, cookieName, ctx.Request().Cookie(cookieName))
 	}
 
 	// iterate in a defined order. Otherwise the key depends on the random map iteration order
@@ -392,8 +391,8 @@ func (h *genericContextualizer) calculateCacheKey(
 	slices.Sort(valueNames)
 
 	for _, k := range valueNames {
-		hash.Write(stringx.ToBytes(k))
-		hash.Write(stringx.ToBytes(values[k]))
+		// names and values must not run into each other
+		hashx.WriteStrings(hash, k, values[k])
 	}
 
 	return hex.EncodeToString(hash.Sum(nil))
